@@ -2,19 +2,19 @@
 //! (no copy) and executes the line protocol described in /verif/DESIGN.md §2.
 #![allow(dead_code, unused_imports, clippy::all)]
 
-#[path = "/repo/src/chess/mod.rs"]
+#[path = "../repo/src/chess/mod.rs"]
 mod chess;
-#[path = "/repo/src/constants.rs"]
+#[path = "../repo/src/constants.rs"]
 mod constants;
-#[path = "/repo/src/search.rs"]
+#[path = "../repo/src/search.rs"]
 mod search;
-#[path = "/repo/src/verif_hooks.rs"]
+#[path = "../repo/src/verif_hooks.rs"]
 mod verif_hooks;
 
 /// `uci.rs` consists of private functions; including its text gives this crate access to
 /// `command_position` without any change to the repository.
 mod uci_inc {
-    include!("/repo/src/uci.rs");
+    include!("../repo/src/uci.rs");
 
     pub struct Session(Data);
 
